@@ -39,8 +39,8 @@ let run es ext stem outdir pm cm qf table prio types =
   let strop x = match List.assoc_opt x table with Some y -> y | None -> x in
   let perm = order prio pm and cperm = order prio cm in
   let ek = if qf then strop else same in
-  (* pin_c11tree_stem_check: regenerated from /repo (does build_namespace_tree have the stem check?) *)
-  match build_checked pin_c11tree_stem_check strop ek es ext stem outdir perm types with
+  (* regenerated from /repo: does Namespace.__init__ validate the stem / does build_namespace_tree have the collision check? *)
+  match build_checked pin_c11path_stem_validated pin_c11tree_stem_check strop ek es ext stem outdir perm types with
   | None -> print_string "RAISE\nEND\n"
   | Some (s, root) ->
   print_string ("ROOT " ^ show_key root ^ "\n");
